@@ -227,6 +227,47 @@ def eviction_case(item):
     return res
 
 
+def order_case(item):
+    """History independence, bit for bit: the memoised recursion's value for a children list must not depend on which
+    ordering of the same children reached the memo first (a last-bit difference is enough to flip a later random choice):
+    for every pair of orderings, the value served after the other ordering was computed equals the value computed cold."""
+    n_children, grid, dims, seed = item
+    import phyclone.tree.tree_node as tn
+
+    install()
+    res = {"item": item, "n": 0, "problems": []}
+    rs = np.random.RandomState(seed)
+    arrs = []
+    for c in range(n_children):
+        v = rs.gamma(0.7, size=(dims, grid)) + 1e-6
+        arrs.append(np.log(v / v.sum(axis=1, keepdims=True)) - rs.uniform(0, 30))
+    perms = list(itertools.permutations(range(n_children)))
+    if len(perms) > 24:
+        perms = perms[::5]
+    try:
+        cold = {}
+        for pm in perms:
+            S.clear_caches(all_caches=True)
+            cold[pm] = np.array(tn.compute_log_S([arrs[i].copy() for i in pm]), copy=True)
+        for pa in perms:
+            for pb in perms:
+                if pa == pb:
+                    continue
+                S.clear_caches(all_caches=True)
+                tn.compute_log_S([arrs[i].copy() for i in pa])
+                warm = np.asarray(tn.compute_log_S([arrs[i].copy() for i in pb]))
+                res["n"] += 1
+                if warm.shape != cold[pb].shape or warm.tobytes() != cold[pb].tobytes():
+                    res["problems"].append("%d children: the value served for ordering %r after ordering %r was computed differs from the cold value by %.3e (bit-exact comparison)" % (
+                        n_children, list(pb), list(pa), float(np.max(np.abs(warm - cold[pb])))))
+                    return res
+    except Exception as e:
+        res["problems"].append("raised %s: %s" % (type(e).__name__, str(e)[:120]))
+    finally:
+        del MISMATCH[:]
+    return res
+
+
 def key_family_work(item):
     """Keys of the two array-keyed memos over a large enumerated family of distinct realistic arguments: the log-likelihood
     grid of one mutation for EVERY (depth, alternate count) in a depth range.  -> {key: digest of the argument bytes}."""
@@ -289,7 +330,7 @@ def main(tier, seed):
     chk.rule = ("every history of length <=2 (3 thorough) over {particle-Gibbs update per proposal, subtree update, data-point move, prune-regraft, concentration change, "
                 "cache clear}, once with the clears the run loop performs and once without; n=2: ALL random outcomes, n=3: deviation bound 1 (2 thorough); every call "
                 "of the four memoised functions shadowed by the wrapped original; key part: the memo keys of every single-mutation likelihood grid for all (depth <= 800 (1100), alternate count) pairs "
-                "(320k / 600k distinct arguments) are pairwise different; eviction part: 2600 (9000) distinct children lists plus repeats in one process without clears, every call shadowed; non-trivial = history whose exploration made >= 1 cache hit")
+                "(320k / 600k distinct arguments) are pairwise different; eviction part: 2600 (9000) distinct children lists plus repeats in one process without clears, every call shadowed; order part: the value served for one ordering of 3-5 children after another ordering was computed is bit-identical to the cold value, all pairs of orderings; non-trivial = history whose exploration made >= 1 cache hit")
     chk.assumptions = ["tolerance 1e-9 on arrays and log-probabilities (the caches are keyed order-insensitively, so last-bit differences are expected and are C18's business)",
                        "all memo caches are emptied at the start of every execution; warm states arise from the history itself"]
     L = 2 if tier == "quick" else 3
@@ -348,6 +389,13 @@ def main(tier, seed):
             hits_total["eviction: " + k] = hits_total.get("eviction: " + k, 0) + v
         for pr in r["problems"]:
             chk.violation({"sub": "memo-eviction", "what": pr.split(":")[1].strip()[:40] if ":" in pr else pr[:40]}, {"problem": pr, "lists,children,grid,samples,seed": list(r["item"])}, {"eviction": list(r["item"])})
+    for r in pool_imap(order_case, [(nc, g, d_, seed + 7 * k) for k, (nc, g, d_) in enumerate(((3, 7, 1), (3, 21, 2), (4, 5, 1), (4, 11, 2), (5, 4, 1), (3, 1001, 1)))], chunksize=1):
+        chk.transitions += r["n"]
+        chk.traces_validated += r["n"]
+        chk.states.add(json.dumps(["order", list(r["item"])]))
+        chk.nontrivial.add(json.dumps(["order", list(r["item"])]))
+        for pr in r["problems"]:
+            chk.violation({"sub": "memo-history-independence", "what": pr.split(":")[0][:40]}, {"problem": pr, "children,grid,samples,seed": list(r["item"])}, {"order": list(r["item"])})
     chk.note("shadowed_calls", hits_total)
     chk.caps.append("n=2 histories of length <=2: all random outcomes; n=3 and length-3 histories: deviation-bounded with an execution cap")
     chk.sample({"history": ["pg:semi-adapted", "alpha"], "mode": "library", "n": 2})
@@ -358,6 +406,10 @@ def main(tier, seed):
 def replay(path):
     body = json.load(open(path))
     rp = body["replay"]
+    if "order" in rp:
+        r = order_case(tuple(rp["order"]))
+        print(r["problems"])
+        return 1 if r["problems"] else 0
     if "eviction" in rp:
         r = eviction_case(tuple(rp["eviction"]))
         print(r["problems"], r["stats"])
